@@ -159,20 +159,11 @@ func wantAddr(urlHost, a string) string {
 	return h + ":" + p
 }
 
-// classes of the two known deviations of the addr mapping (see known_findings.d/acc.json)
-var knownAddrClass = map[string]bool{"addr-portless-entry": true, "addr-default-host-not-hostname": true}
-
-func addrClass(urlHost, a string) string {
-	_, _, hasPort := readAddr(a)
-	_, _, urlHasPort := readAddr(urlHost)
-	h, _, _ := readAddr(a)
-	switch {
-	case !hasPort && a != "":
-		return "addr-portless-entry"
-	case h == "" && (urlHasPort || strings.HasPrefix(urlHost, "[")):
-		return "addr-default-host-not-hostname"
-	}
-	return "addr"
+// documented: addr=<host>:<port>; an entry without a port is outside the documentation and nothing is required of it
+// here (the model still pins what the code does with it)
+func documentedAddr(a string) bool {
+	_, p, hasPort := readAddr(a)
+	return hasPort && p != ""
 }
 
 func (c Case) text() string {
@@ -298,7 +289,7 @@ func run(ci any) (res obs.Result) {
 			pairs = append(pairs, "("+obs.HS(k)+", "+obs.HS(v)+")")
 		}
 	}
-	purl := obs.App("mkUrl", obs.HS(u.Scheme), user, obs.HS(u.Host), obs.HS(u.Path), obs.List(pairs))
+	purl := obs.App("mkUrl", obs.HS(u.Scheme), user, obs.HS(u.Host), obs.HS(u.Hostname()), obs.HS(u.Path), obs.List(pairs))
 	split := func(s string) string {
 		h, p, _ := net.SplitHostPort(s)
 		return "(" + obs.HS(s) + ", (" + obs.HS(h) + ", " + obs.HS(p) + "))"
@@ -335,8 +326,7 @@ func run(ci any) (res obs.Result) {
 	okScheme := map[string]bool{"redis": true, "rediss": true, "valkey": true, "valkeys": true, "unix": true}[scheme]
 	isTLS := scheme == "rediss" || scheme == "valkeys"
 	fail := func(class, f string, a ...any) {
-		// the first failure is reported; a failure outside the known classes takes precedence over a known one
-		if res.Oracle == "" || (knownAddrClass[res.Class] && !knownAddrClass[class]) {
+		if res.Oracle == "" {
 			res.Oracle, res.Class = fmt.Sprintf(f, a...), class
 		}
 	}
@@ -422,8 +412,8 @@ func run(ci any) (res obs.Result) {
 	for _, kv := range c.Query {
 		if kv.K == "addr" {
 			naddr++
-			if want := wantAddr(c.Host, kv.V); len(opt.InitAddress) <= naddr || opt.InitAddress[naddr] != want {
-				fail(addrClass(c.Host, kv.V), "addr entry %d %q: InitAddress[%d] should be %q: %v", naddr, kv.V, naddr, want, opt.InitAddress)
+			if want := wantAddr(c.Host, kv.V); documentedAddr(kv.V) && (len(opt.InitAddress) <= naddr || opt.InitAddress[naddr] != want) {
+				fail("addr", "addr entry %d %q: InitAddress[%d] should be %q: %v", naddr, kv.V, naddr, want, opt.InitAddress)
 			}
 		}
 	}
@@ -442,11 +432,7 @@ func run(ci any) (res obs.Result) {
 			fail("addr", "ServerName %q, expected %q", opt.TLSConfig.ServerName, h)
 		}
 	} else if want := wantAddr(c.Host, c.Host); opt.InitAddress[0] != want { // documented defaults: localhost, port 6379
-		class := "addr"
-		if strings.ContainsAny(c.Host, ":[") { // ":7000", "[::1]": the default host is taken from u.Host as it stands
-			class = "addr-default-host-not-hostname"
-		}
-		fail(class, "InitAddress[0] %q, expected %q", opt.InitAddress[0], want)
+		fail("addr", "InitAddress[0] %q, expected %q", opt.InitAddress[0], want)
 	}
 	if isTLS {
 		want := false
